@@ -33,7 +33,7 @@ PROPS = {
     "C18": {"engine": "histsim", "quick": (384, 60), "thorough": (6400, 60), "params": {"focus": "C18"}},
     "C07": {"engine": "envsim", "quick": (480, 30), "thorough": (2400, 30), "params": {"focus": "C07"}},
     "C08": {"engine": "envsim", "quick": (480, 30), "thorough": (2400, 30), "params": {"focus": "C08"}},
-    "C12": {"engine": "hashsim", "quick": (32, 0), "thorough": (256, 0), "params": {}},
+    "C12": {"engine": "hashsim", "quick": (48, 0), "thorough": (256, 0), "params": {}},
 }
 
 RULES = {
